@@ -11,7 +11,10 @@ Closes == {"bad_magic", "oversize_length", "zero_length", "undecodable_header", 
            "unknown_data_type", "header_only_data", "non_greeting_first", "oversize_inventory", "getdata_transaction_type",
            "block_that_cannot_be_applied", "transaction_amount_out_of_range", "trailing_garbage_frame"}
 Ignored == {"truncated_frame", "getdata_unknown_hash", "peers_with_unusable_addresses", "block_invalid_by_itself", "orphan_block",
-            "block_invalid_in_state", "transaction_invalid", "repeated_greeting", "duplicate_block", "empty_inventory", "get_peers"}
+            "block_invalid_in_state", "transaction_invalid", "repeated_greeting", "duplicate_block", "empty_inventory", "get_peers",
+            \* a block that fails a rule in state sent as the answer to a request (bulk download: taken unvalidated), then a relayed block
+            \* that is validated and rejected: the roll-back to the last validated state removes both (one input of two frames)
+            "invalid_block_in_bulk_then_a_rejected_block"}
 Either == {"random_bytes", "bit_flipped_frame", "spliced_frames", "truncated_then_valid"}
 Valid == {"valid_block", "valid_transaction"}
 Classes == Closes \cup Ignored \cup Either \cup Valid
